@@ -21,6 +21,10 @@ class Undecided(Exception):
     pass
 
 
+class Infeasible(Exception):
+    """the combination of choices made so far cannot occur"""
+
+
 class NeedChoice(Exception):
     def __init__(self, key, n):
         self.key, self.n = key, n
@@ -67,6 +71,8 @@ def _ev(t, env, lbl, ctx=None):
     if not isinstance(t, tuple):
         raise Undecided("non-term")
     k = t[0]
+    if k == "const" and len(t) > 2 and t[1] == "bool" and ctx is not None:
+        return str(t[2]) in ("1", "true")
     if ctx is not None:
         if k in ("gamma", "phi"):
             arms = t[2]
@@ -84,17 +90,29 @@ def _ev(t, env, lbl, ctx=None):
                     ctx.pol = old
             return _ev(v, env, lbl, ctx)
         if k == "agg" and t[1] == "tuple":
-            return ("tuple", tuple(_ev(x, env, lbl, ctx) for x in t[4]))
+            comps = []
+            for x in t[4]:
+                try:
+                    comps.append(_ev(x, env, lbl, ctx))
+                except Undecided as e_:
+                    comps.append(("undecided", str(e_)))     # only an error if this component is the one projected out
+            return ("tuple", tuple(comps))
         if k == "field" and isinstance(t[1], tuple) and t[1] and t[1][0] == "as" and t[1][2] == "Var" and t[2] == "0":
             x = strip(t[1][1])
             if repr(x) not in ctx.pol:
                 raise Undecided("label of a literal operand whose polarity is not known here")
             v = _pair(_ev(x, env, lbl, ctx))
             return v if ctx.pol[repr(x)] else (not v[0], not v[1])
+        std = _std_triple_field(t, env, lbl, ctx)
+        if std is not None:
+            return std
         if k == "field" and str(t[2]).isdigit():
             v = _ev(t[1], env, lbl, ctx)
             if isinstance(v, tuple) and v and v[0] == "tuple" and int(t[2]) < len(v[1]):
-                return v[1][int(t[2])]
+                c_ = v[1][int(t[2])]
+                if isinstance(c_, tuple) and len(c_) == 2 and c_[0] == "undecided":
+                    raise Undecided(c_[1])
+                return c_
             raise Undecided("projection of %s" % show(t)[:60])
         if k == "call":
             nm, a, key = t[1].name, t[2], t[1].key()
@@ -196,6 +214,34 @@ SPECS = {
 }
 
 
+def _std_triple_field(t, env, lbl, ctx):
+    """A component of the standard triple `Ite::new(_, f, g, h)`.  ST proves (exhaustively) that the normalisation preserves
+    the ite: an `IteChoice {f', g', h'}` satisfies ite(f', g', h') = ite(f, g, h), an `IteComplChoice` its complement, and
+    `IteConst(c)` is the ite itself.  Under that contract the components are *any* three values with the right ite: they are
+    enumerated (per evaluation point), and combinations that do not satisfy the contract are discarded."""
+    if not (t[0] == "field" and isinstance(t[1], tuple) and t[1] and t[1][0] == "as" and t[1][2] in ("IteChoice", "IteComplChoice", "IteConst")):
+        return None
+    x = strip(t[1][1])
+    if not (mir.is_call(x, "new") and "cache::ite::Ite" in x[1].key() and len(x[2]) == 4):
+        return None
+    f, g, h = (_pair(_ev(a, env, lbl, ctx)) for a in x[2][1:])
+    v = (g[0] if f[0] else h[0], g[1] if f[1] else h[1])
+    variant, name = t[1][2], str(t[2])
+    if variant == "IteConst":
+        return v
+    if name not in ("f", "g", "h"):
+        raise Undecided("field %s of a standard triple" % name)
+    target = v if variant == "IteChoice" else (not v[0], not v[1])
+    idx = ctx.choose(("std-triple", variant, show(x)[:80]), 64)
+    a, b = idx // 8, idx % 8
+    tri = [((a >> k_) & 1 == 1, (b >> k_) & 1 == 1) for k_ in (2, 1, 0)]      # (F, G, H), each a pair over the two points
+    F, G, H = tri
+    for i in (0, 1):
+        if (G[i] if F[i] else H[i]) != target[i]:
+            raise Infeasible()
+    return {"f": F, "g": G, "h": H}[name]
+
+
 def leaves(t):
     if isinstance(t, tuple) and t and t[0] in ("gamma", "phi"):
         out = []
@@ -265,7 +311,7 @@ def _consistent(facts, env, lbl, ctx):
     return True
 
 
-def _runs(thunk, limit=128):
+def _runs(thunk, limit=1024):
     """evaluate under every combination of the choices the evaluation asks for"""
     stack, n = [{}], 0
     while stack:
@@ -275,6 +321,8 @@ def _runs(thunk, limit=128):
             raise Undecided("too many undetermined tests")
         try:
             yield ch, thunk(ch)
+        except Infeasible:
+            continue
         except NeedChoice as e:
             for i in range(e.n):
                 d_ = dict(ch)
@@ -300,7 +348,20 @@ def check_def(fn, name, prog=None):
                 if prog is None:
                     results = [({}, ev(alt, env, lbl))]
                 else:
-                    results = list(_runs(lambda ch: ev(alt, env, lbl, Ctx(prog, fn, ch))))
+                    def thunk(ch, alt=alt, env=env, lbl=lbl, gfacts=gfacts):
+                        cx = Ctx(prog, fn, ch)
+                        got_ = ev(alt, env, lbl, cx)
+                        # a guard of this alternative that is a flag chosen together with the operands (the `compl` of a
+                        # destructured standard triple) must hold under the very choices this run made
+                        for c_, tr_ in gfacts:
+                            try:
+                                b_ = _ev(c_, env, lbl, cx)
+                            except Undecided:
+                                continue
+                            if isinstance(b_, bool) and b_ != tr_:
+                                raise Infeasible()
+                        return got_
+                    results = list(_runs(thunk))
                 for ch, got in results:
                     if got != want:
                         return inst("DT", key, VIOLATION, fn, None,
